@@ -11,6 +11,7 @@ import hashlib
 import json
 import math
 import os
+import re
 
 from hypothesis import HealthCheck, Phase, given, seed, settings
 from hypothesis import strategies as st
@@ -51,7 +52,18 @@ BASE_PROPS = ('x', 'y', 'z', 'h', 'u', 'v', 'w', 'rho', 'm')
 
 
 # --------------------------------------------------------------- layouts
-def infer_layout(cls, dim, kernel_name):
+def resolve(key):
+    """'module.Class' or 'module.Class#alt' -> (class, alt)"""
+    from vlib import eqcatalog as C
+    base, _, tag = key.partition('#')
+    return C.equation_classes()[base], tag == 'alt'
+
+
+def short_name(key):
+    return key.partition('#')[0].split('.')[-1]
+
+
+def infer_layout(cls, dim, kernel_name, alt=False):
     """Recording dry run -> dict(dprops, sprops, reason).  Each entry:
     name -> ('prop', stride) | ('const', length)."""
     import numpy as np
@@ -60,27 +72,49 @@ def infer_layout(cls, dim, kernel_name):
     from vlib import eqcatalog as C
     from vlib import jit
     from vlib.refeval import RefEval, RefUndefined
-    recs = []
     C.inject_math(cls)
+    pyprops = []
+    for attempt in range(8):
+        lay, why = _infer_layout(cls, dim, kernel_name, pyprops, alt)
+        m = why and re.search(r'has no property/constant (\w+)\.', why)
+        if lay is not None or not m or m.group(1) in pyprops:
+            return lay, why
+        # reduce / py_initialize read this through the ParticleArray itself
+        pyprops.append(m.group(1))
+    return lay, why
+
+
+def _infer_layout(cls, dim, kernel_name, pyprops, alt=False):
+    import numpy as np
+    from pysph.base import kernels
+    from pysph.sph.equation import Group
+    from vlib import eqcatalog as C
+    from vlib import jit
+    from vlib.refeval import RefEval, RefUndefined
+    recs = []
     for n in (5, 8):
-        obj, why = C.instantiate(cls, 'dd', ['dd', 'ss'], dim)
+        obj, why = C.instantiate(cls, 'dd', ['dd', 'ss'], dim, alt=alt)
         if obj is None:
             return None, why
         has_pair = any(hasattr(obj, h) for h in ('loop', 'loop_all',
                                                  'initialize_pair'))
         if not has_pair:
-            obj, why = C.instantiate(cls, 'dd', None, dim)
+            obj, why = C.instantiate(cls, 'dd', None, dim, alt=alt)
             if obj is None:
                 return None, why
 
         def arr(name, off):
             co = [[(0.05 * ((7 * i + 3 * a + off) % 11)) if a < dim else 0.0
                    for i in range(n)] for a in range(3)]
-            return dict(name=name, n=n, nghost=0, props=dict(
+            props = dict(
                 x=dict(data=co[0]), y=dict(data=co[1]), z=dict(data=co[2]),
                 h=dict(data=[1.0] * n), u=dict(data=[0.1] * n),
                 v=dict(data=[0.2] * n), w=dict(data=[0.3] * n),
-                rho=dict(data=[1.0] * n), m=dict(data=[1.0] * n)))
+                rho=dict(data=[1.0] * n), m=dict(data=[1.0] * n))
+            for q in pyprops:
+                props[q] = dict(data=[0] * n, type='int') \
+                    if q in C.INT_PROPS else dict(data=[0.25] * n)
+            return dict(name=name, n=n, nghost=0, props=props)
         arrays = jit.make_arrays([arr('dd', 0), arr('ss', 1)])
         K = getattr(kernels, kernel_name)(dim=dim)
         nn = jit.sorted_nnps(dim, arrays, K.radius_scale)
@@ -94,6 +128,9 @@ def infer_layout(cls, dim, kernel_name):
                             a not in ('d_idx', 's_idx'):
                         if a not in store:
                             store[a] = C.Elastic(a, rec)
+                            # requested but possibly never indexed on this
+                            # data (guarded by a branch): still laid out
+                            rec.setdefault(a, -1)
                         env[a] = store[a]
                 return RefEval._call(self, meth, env)
         r = Rec(arrays, [Group(equations=[obj], real=False)], K, nn)
@@ -109,7 +146,9 @@ def infer_layout(cls, dim, kernel_name):
     for key in sorted(set(r1) | set(r2)):
         m1, m2 = r1.get(key, -1), r2.get(key, -1)
         nm = key[2:]
-        if m2 > m1 and m2 >= n1:
+        if max(m1, m2) < 0:
+            ent = ('prop', 1)
+        elif m2 > m1 and m2 >= n1:
             s1 = -(-(m1 + 1) // n1)
             s2 = -(-(m2 + 1) // n2)
             stride = max(s1, s2, 1)
@@ -130,6 +169,8 @@ def infer_layout(cls, dim, kernel_name):
             # a per-particle property is the safe superset
             if ent[0] == 'prop':
                 lay[nm] = ent
+    for q in pyprops:
+        lay.setdefault(q, ('prop', 1))
     return lay, None
 
 
@@ -212,15 +253,15 @@ def prepare_bundle(keys, kernel_name, dim, first, stats):
     members = []
     skipped = stats.extra.setdefault('skipped_classes', {})
     for i, key in enumerate(keys):
-        cls = classes[key]
-        lay, why = infer_layout(cls, dim, kernel_name)
+        cls, alt = resolve(key)
+        lay, why = infer_layout(cls, dim, kernel_name, alt)
         if lay is None:
             skipped[key] = why
             continue
         m = Member()
         m.key, m.cls, m.lay, m.i = key, cls, lay, i
         m.dn, m.sn = 'e%dd' % i, 'e%ds' % i
-        probe, _ = C.instantiate(cls, m.dn, [m.dn, m.sn], dim)
+        probe, _ = C.instantiate(cls, m.dn, [m.dn, m.sn], dim, alt=alt)
         m.has_pair = any(hasattr(probe, h) for h in ('loop', 'loop_all',
                                                      'initialize_pair'))
         m.sources = [m.dn, m.sn] if m.has_pair else None
@@ -229,7 +270,7 @@ def prepare_bundle(keys, kernel_name, dim, first, stats):
         m.strided = any(k == 'prop' and s > 1 for k, s in lay.values())
         m.consts = any(k == 'const' for k, s in lay.values())
         # reference objects and arrays
-        m.ref_eq, _ = C.instantiate(cls, m.dn, m.sources, dim)
+        m.ref_eq, _ = C.instantiate(cls, m.dn, m.sources, dim, alt=alt)
         m.ref_arrays = jit.make_arrays(member_specs(m, dim, first))
         m.ref_kernel = getattr(kernels, kernel_name)(dim=dim)
         m.ref_nnps = jit.sorted_nnps(dim, m.ref_arrays,
@@ -244,7 +285,7 @@ def prepare_bundle(keys, kernel_name, dim, first, stats):
         except Exception as ex:
             skipped[key] = 'reference failed: %r' % (ex,)
             continue
-        m.cmp_eq, _ = C.instantiate(cls, m.dn, m.sources, dim)
+        m.cmp_eq, _ = C.instantiate(cls, m.dn, m.sources, dim, alt=alt)
         members.append(m)
     return members
 
@@ -376,8 +417,17 @@ def run_bundle_data(members, ev, dim, kernel_name, data):
 
 # ------------------------------------------------------------ entry points
 def class_keys():
+    """every shipped class, and a second entry `#alt` for classes whose
+    constructor has boolean options or float options defaulting to 0.0
+    (these switch terms of the formula on: tensile correction, viscosity
+    coefficients, body forces)"""
     from vlib import eqcatalog as C
-    return list(C.equation_classes().keys())
+    out = []
+    for k, cls in C.equation_classes().items():
+        out.append(k)
+        if C.has_alt(cls):
+            out.append(k + '#alt')
+    return out
 
 
 def pack(keys, per):
@@ -385,9 +435,9 @@ def pack(keys, per):
     generated wrappers are keyed by class name)."""
     bundles = []
     for k in keys:
-        short = k.split('.')[-1]
+        short = short_name(k)
         for b in bundles:
-            if len(b) < per and short not in [x.split('.')[-1] for x in b]:
+            if len(b) < per and short not in [short_name(x) for x in b]:
                 b.append(k)
                 break
         else:
@@ -438,6 +488,19 @@ def plan(ctx):
     shards.append(dict(name='shipped-core', kind='shipped', classes=core,
                        kernel='QuinticSpline', dim=2,
                        ndata=6 if ctx['tier'] == 'quick' else 30))
+    # classes that use kernel-derived symbols whose value depends on the
+    # dimension (WDP, GHI..), with a kernel whose constants do as well
+    sg = [k for k in keys if k in (
+        'pysph.sph.wc.basic.MomentumEquation#alt',
+        'pysph.sph.wc.basic.MomentumEquationDeltaSPH',
+        'pysph.sph.basic_equations.SummationDensity',
+        'pysph.sph.gas_dynamics.basic.MPMAccelerations#alt',
+        'pysph.sph.wc.transport_velocity.MomentumEquationArtificialStress',
+        'pysph.sph.wc.kernel_correction.GradientCorrectionPreStep')]
+    sg = (pack(sg, 10) or [[]])[0]
+    shards.append(dict(name='shipped-core-sg', kind='shipped', classes=sg,
+                       kernel='SuperGaussian', dim=2 + seedv % 2,
+                       ndata=6 if ctx['tier'] == 'quick' else 30))
     try:
         from checks import c02_gen
         shards += c02_gen.plan(ctx)
@@ -466,18 +529,26 @@ def run_shard(spec, ctx):
                                      data, stats)
             holder['members'] = members
             if members:
+                pf = build_prior(kernel_name, dim, stats)
+                if pf is not None:
+                    holder['ev'] = None
+                    holder['cfail'] = pf
+                    return Outcome([pf], ['shipped'], False)
                 try:
                     holder['ev'] = compile_bundle(members, kernel_name, dim,
                                                   data)
                 except SystemExit:
                     holder['ev'] = None
-                    f = Failure('shipped', 'compile_failed',
-                                'bundle %r does not compile' % (
-                                    [m.key for m in members],))
-                    return Outcome([f], ['shipped'], False)
+                    holder['cfail'] = Failure(
+                        'shipped', 'compile_failed',
+                        'bundle %r does not compile' % (
+                            [m.key for m in members],))
+                    return Outcome([holder['cfail']], ['shipped'], False)
                 stats.extra['jit_compiles'] += 1
                 stats.extra['classes_compared'] = [m.key for m in members]
         members = holder['members']
+        if holder.get('cfail') is not None:
+            return Outcome([holder['cfail']], ['shipped'], False)
         if not members or holder.get('ev') is None:
             return Outcome([], ['shipped'], False, skipped=True)
         ctx.journal(dict(bundle=[m.key for m in members],
@@ -514,6 +585,29 @@ def run_shard(spec, ctx):
     return stats.result()
 
 
+def build_prior(kernel_name, dim, stats):
+    """An evaluator with the same kernel class in another dimension, built
+    first in this process (see checks/c02_warm.py) -> Failure or None."""
+    from checks import c02_warm as W
+    od = W.other_dim(kernel_name, dim, KDIMS)
+    if od is None:
+        return None
+    try:
+        diffs = W.build_and_check(kernel_name, od)
+    except SystemExit:
+        return Failure('shipped', 'compile_failed',
+                       'prior evaluator (%s, dim %d) does not compile' % (
+                           kernel_name, od), dict(cls='WarmPair'))
+    stats.label('prior_evaluator')
+    if diffs:
+        return Failure('shipped', 'state_differs',
+                       'prior evaluator %s dim %d: array %s property %s '
+                       'index %s: reference %s, compiled %s (%s)' % (
+                           (kernel_name, od) + diffs[0]),
+                       dict(cls='WarmPair'))
+    return None
+
+
 def run_case(case, component, ctx):
     if 'program' in case:
         from checks import c02_gen
@@ -522,6 +616,9 @@ def run_case(case, component, ctx):
     keys = case.get('classes') or case['bundle']
     members = prepare_bundle(keys, case['kernel'], case['dim'],
                              case['data'], stats)
+    pf = build_prior(case['kernel'], case['dim'], stats)
+    if pf is not None:
+        return [pf.as_dict(case)]
     if not members:
         return []
     try:
